@@ -160,6 +160,11 @@ def run_autocreate(case):
             n = 7
             for k in range(n):
                 _sparse(os.path.join(root, "f%d" % k), size // n + (1 if k < size % n else 0))
+        elif lay == "crowd":         # one big file among thousands of tiny ones (the choice depends on the total alone)
+            n = 5000
+            for k in range(n):
+                _sparse(os.path.join(root, "tiny", "%02d" % (k % 50), "t%04d" % k), 1 if k < min(size, n // 2) else 0)
+            _sparse(os.path.join(root, "big.img"), size - min(size, n // 2))
         out = os.path.join(sbx, "m.torrent")
         v = case.get("version", 1)
         try:
